@@ -1000,7 +1000,18 @@ def b_issubclass(I, c, spec):
 
 def b_round(I, v, nd=None):
     if isinstance(v, Sym):
-        raise Unsupported('round of symbolic value')
+        # a nearest multiple of 10^-nd (ties are not distinguished: both neighbours are allowed at a tie)
+        if nd is not None and not isinstance(nd, int):
+            raise Unsupported('round to a symbolic number of digits')
+        import z3
+        from .values import mk, zreal
+        k = I.ctx.fresh('round_k', 'int')
+        scale = 10 ** (nd or 0)
+        x = zreal(v)
+        I.ctx.fact(z3.And(z3.ToReal(k.e) - x * scale <= z3.RealVal('1/2'), x * scale - z3.ToReal(k.e) <= z3.RealVal('1/2')))
+        if nd is None:
+            return k
+        return mk(z3.ToReal(k.e) / scale, 'real')
     return round(v, nd) if nd is not None else round(v)
 
 
